@@ -27,6 +27,7 @@ class Gen:
         self.nodes = rng.sample([0, 1, 2, 7, 100, 253, 254, 255, rng.randrange(3, 250)], rng.choice([1, 2, 2, 3, 4]))
         self.children = {n: rng.sample([0, 1, 2, 5, 254, rng.randrange(3, 250)], rng.choice([0, 1, 2, 3])) for n in self.nodes}
         self.fw = []   # (t, v) scheduled somewhere
+        self.seen = []  # lines produced so far (source of the one-field-changed twins)
 
     def node(self):
         r = self.rng
@@ -54,7 +55,22 @@ class Gen:
         return text.payload(r, wire_ok=True)
 
     def line(self):
-        """one inbound line"""
+        """one inbound line; 6%: an earlier line of this history with ONE header field changed (child 255 <-> an
+        ordinary child, node / ack / type / sub-type just outside its range) - invalid twins of accepted traffic"""
+        r = self.rng
+        if self.seen and r.random() < 0.06:
+            f = r.choice(self.seen).split(";", 5)
+            if len(f) == 6:
+                i = r.choice([0, 1, 1, 1, 2, 3, 4])
+                f[i] = str(r.choice({0: [256, -1, 255], 1: [255, 255, 256, 0, 1] if f[1] != "255" else [0, 1, 254, 256],
+                                     2: [5, -1, 0, 1, 2, 3, 4], 3: [2, -1, 1], 4: [MAXSUB[1][self.vi] + 1, -1, 57, 34]}[i]))
+                return ";".join(f)
+        l = self._line()
+        if len(self.seen) < 60:
+            self.seen.append(l)
+        return l
+
+    def _line(self):
         r = self.rng
         vi = self.vi
         k = r.random()
